@@ -483,14 +483,15 @@ func judge(d *lib.Driver, k *kase, w WOut, v verdicts) {
 			disagreement(k, "simp:"+base, "Simplify() differs from the model's", map[string]any{"impl": implSimp, "model": v.simp})
 		}
 	}
-	// (e) documented behaviour
-	if modelled1(v.ideal) && canonFloats(v.ideal) != implRuns {
+	// (e) documented behaviour (judged where the model follows the code to the end: a documented run
+	// that ends early, at a deviation, says nothing about a plan the model cannot follow)
+	if curOK && modelled1(v.ideal) && canonFloats(v.ideal) != implRuns {
 		explainByFlags(d, k, implRuns, func(flags string) string {
 			a, _ := d.Ask1("run\t" + devArg(flags) + "\t2\t" + k.plan + "\t" + k.root)
 			return canonFloats(a)
 		}, "documented:"+base, map[string]any{"impl": implRuns, "documented": canonFloats(v.ideal), "err": r.Err1})
 	}
-	if k.spec != nil && v.spec != "unmodelled" && v.spec != "enum" && v.spec != "diverge" {
+	if curOK && k.spec != nil && v.spec != "unmodelled" && v.spec != "enum" && v.spec != "diverge" {
 		// the plan is [set $.asm [f args…]] on a root without asm: read the function's result off run 1
 		got := specOutcome(impl1)
 		want := canonFloats(v.spec)
